@@ -72,7 +72,7 @@ def c15(ctx):
     # ERRD at handler sites
     hs_bodies = [b for b in ctx.prog.bodies if em.handler_sites(b)] if em.exec else []
     obs += r_errd.rule_errd(hs_bodies, rule='ERRD', only=lambda c: c.is_virtual or c.is_indirect)
-    obs += r_order.rule_o4(em, ('handler',))
+    obs += r_order.em_fallback(ctx.cache, ctx.prog, em, r_order.rule_o4, ('handler',))
     o2, n = r_lock.rule_lock_a(lm, want=('a', 'c'))
     obs += o2
     obs += r_lock.rule_once(lm)
@@ -96,23 +96,24 @@ def c15(ctx):
       not_decided='nothing of the statement; what handlers themselves do is out of scope',
       assumptions=COMMON_ASSUME)
 def c07(ctx):
-    em = eval_model(ctx)
-    obs, n = r_order.rule_order(em)
-    obs += r_order.rule_o4(em, ('child', 'handler'))
-    obs += r_order.rule_floors(em)
-    # ERRD: every child / handler result is ?-consumed or returned at all
-    obs += r_errd.rule_errd(em.bodies, rule='ERRD')
-    npaths = 0
-    if ctx.tier == 'thorough':
-        pobs, npaths = r_paths.rule_paths(em)
-        dom_bad = any(o.status == 'violated' for o in obs if o.rule.startswith('ORDER'))
-        path_bad = any(o.status == 'violated' for o in pobs)
-        obs += pobs
-        if dom_bad != path_bad:
-            obs.append(bad('ORDER-PATHS', 'PATHS|agreement', 'the dominance-based verdict (%s) and the path-enumeration verdict (%s) disagree' % ('violated' if dom_bad else 'clean', 'violated' if path_bad else 'clean')))
-        else:
-            obs.append(ok('ORDER-PATHS', 'PATHS|agreement', 'dominance-based rules and path enumeration agree (%s)' % ('violated' if dom_bad else 'clean')))
-    return obs, {'analysed': {'child_sites': n, 'evaluator_bodies': len(em.bodies), 'paths_enumerated': npaths}}
+    def run(em):
+        obs, n = r_order.rule_order(em)
+        obs += r_order.rule_o4(em, ('child', 'handler'))
+        obs += r_order.rule_floors(em)
+        # ERRD: every child / handler result is ?-consumed or returned at all
+        obs += r_errd.rule_errd(em.bodies, rule='ERRD')
+        npaths = 0
+        if ctx.tier == 'thorough':
+            pobs, npaths = r_paths.rule_paths(em)
+            dom_bad = any(o.status == 'violated' for o in obs if o.rule.startswith('ORDER'))
+            path_bad = any(o.status == 'violated' for o in pobs)
+            obs += pobs
+            if dom_bad != path_bad:
+                obs.append(bad('ORDER-PATHS', 'PATHS|agreement', 'the dominance-based verdict (%s) and the path-enumeration verdict (%s) disagree' % ('violated' if dom_bad else 'clean', 'violated' if path_bad else 'clean')))
+            else:
+                obs.append(ok('ORDER-PATHS', 'PATHS|agreement', 'dominance-based rules and path enumeration agree (%s)' % ('violated' if dom_bad else 'clean')))
+        return obs, {'analysed': {'child_sites': n, 'evaluator_bodies': len(em.bodies), 'paths_enumerated': npaths}}
+    return r_order.em_fallback(ctx.cache, ctx.prog, eval_model(ctx), run)
 
 
 def exec_scope(ctx):
@@ -204,11 +205,11 @@ def c08(ctx):
     em = eval_model(ctx)
     obs = r_registry.rule_winit(rm)
     obs += r_registry.rule_winsert(rm)
-    obs += r_registry.rule_wdisp(rm, em)
-    obs += r_registry.rule_receivers(rm, em)
+    obs += r_order.em_fallback(ctx.cache, ctx.prog, em, lambda e: r_registry.rule_wdisp(rm, e))
+    obs += r_order.em_fallback(ctx.cache, ctx.prog, em, lambda e: r_registry.rule_receivers(rm, e))
     obs += r_misc.rule_statics(ctx)
     obs += r_lock.rule_notry(ctx.lm, classes=('REGISTRY', 'CONTEXT'))
-    obs += r_prec.rule_wgate(parse_roles(ctx))
+    obs += r_parse.fallback(r_prec.rule_wgate, parse_roles(ctx))
     obs += r_prec.rule_wassoc(ctx.prog)
     return obs, {'analysed': {'writers': len(rm.writers), 'fillers': len(rm.fillers), 'must_init_bodies': len(rm.must_init)}}
 
@@ -288,9 +289,9 @@ def c03(ctx):
     for fb, c, w in probs:
         obs.append(bad('TOP', 'TOP|eval|%s' % fb.name, w, c.where(), body=fb.name))
     obs += r_top.rule_top(prog, rows)
-    obs += r_top.rule_aggr(prog, rows)
-    obs += r_top.rule_unary(prog, rows)
-    obs += r_top.rule_fold(prog, rows)
+    obs += r_top.with_views(prog, r_top.rule_aggr, rows)
+    obs += r_top.with_views(prog, r_top.rule_unary, rows)
+    obs += r_top.with_views(prog, r_top.rule_fold, rows)
     return obs, {'analysed': {'builtin_handlers': len(hs), 'registered_rows': len(rows)}}
 
 
@@ -305,10 +306,10 @@ def c03(ctx):
 def c06(ctx):
     prog = ctx.prog
     em = eval_model(ctx)
-    obs = r_ctx.rule_wctx(prog, em)
-    obs += r_ctx.rule_ctx_store(prog, em)
-    obs += r_ctx.rule_chain(prog, em)
-    obs += r_order.rule_o4(em, ('child', 'handler'))
+    obs = r_order.em_fallback(ctx.cache, prog, em, lambda e: r_ctx.rule_wctx(prog, e))
+    obs += r_order.em_fallback(ctx.cache, prog, em, lambda e: r_ctx.rule_ctx_store(prog, e))
+    obs += r_order.em_fallback(ctx.cache, prog, em, lambda e: r_ctx.rule_chain(prog, e))
+    obs += r_order.em_fallback(ctx.cache, prog, em, r_order.rule_o4, ('child', 'handler'))
     rows, probs = r_table.builtin_rows(prog, reg_model(ctx))
     obs += r_top.rule_compound(prog, rows)
     return obs, {'analysed': {'evaluator_bodies': len(em.bodies)}}
@@ -334,11 +335,11 @@ def c05(ctx):
     if any(o.status == 'violated' for o in obs):
         return obs, {}
     obs += r_parse.rule_wexpect(roles)
-    obs += r_parse.rule_closer(roles)
-    obs += r_parse.rule_sep(roles)
-    obs += r_parse.rule_wprefix(roles, ctx.lm)
-    obs += r_parse.rule_stray(roles)
-    obs += r_parse.rule_strterm(roles)
+    obs += r_parse.fallback(r_parse.rule_closer, roles)
+    obs += r_parse.fallback(r_parse.rule_sep, roles)
+    obs += r_parse.fallback(r_parse.rule_wprefix, roles, ctx.lm)
+    obs += r_parse.fallback(r_parse.rule_stray, roles)
+    obs += r_parse.fallback(r_parse.rule_strterm, roles)
     bodies = [ctx.prog.by_id[i] for i in sorted(roles.reach)]
     obs += r_errd.rule_errd(bodies, extra_callee_pred=fallible_conv)
     return obs, {'analysed': {'parse_reach': len(bodies), 'parse_bodies': len(roles.parse_bodies)}}
@@ -504,8 +505,8 @@ def c11(ctx):
     tr = tok_roles(ctx)
     obs += r_token.rule_tws(tr)
     obs += r_token.rule_wws(tr)
-    obs += r_token.rule_wparen(roles)
-    obs += [o for o in r_prec.rule_wpostfix(roles) if '|gate|' in o.key or 'floor' in o.key]
+    obs += r_parse.fallback(r_token.rule_wparen, roles)
+    obs += [o for o in r_parse.fallback(r_prec.rule_wpostfix, roles) if '|gate|' in o.key or 'floor' in o.key]
     return obs, {}
 
 
@@ -523,9 +524,9 @@ def c02(ctx):
         return obs, {}
     tobs, rows = r_table.rule_tprec(ctx, reg_model(ctx))
     obs += tobs
-    obs += r_prec.rule_wunary(roles)
-    obs += r_prec.rule_wtern(roles)
-    obs += r_prec.rule_wgate(roles)
+    obs += r_parse.fallback(r_prec.rule_wunary, roles)
+    obs += r_parse.fallback(r_prec.rule_wtern, roles)
+    obs += r_parse.fallback(r_prec.rule_wgate, roles)
     obs += r_prec.rule_wassoc(ctx.prog)
-    obs += [o for o in r_prec.rule_wpostfix(roles) if '|gate|' not in o.key]
+    obs += [o for o in r_parse.fallback(r_prec.rule_wpostfix, roles) if '|gate|' not in o.key]
     return obs, {'analysed': {'registered_rows': len(rows)}}
